@@ -49,7 +49,8 @@ ASSUMPTIONS = [
     "no byte corruption is injected: the property promises rejection only for structurally "
     "defective member sets",
 ]
-PROBES = ["two_packages_open_at_once", "other_client_opens_defective_package",
+PROBES = ["file_replaced_under_live_reader", "client_edits_returned_object",
+          "two_packages_open_at_once", "other_client_opens_defective_package",
           "iteration_abandoned_early", "opened_by_filename", "payload_over_8k_read_in_chunks",
           "parts_compressed_differently_read_alternately", "one_byte_chunks_while_control_requeried",
           "uncompressed_control_tar", "debian_binary_not_first", "defective_package_rejected",
@@ -124,7 +125,12 @@ def generate(seed, run, tier):
              "open": rs.choice(["fileobj", "fileobj", "fileobj", "filename"]),
              # a second, different package opened by another client while the first one is
              # in use (well-formed, or defective and therefore rejected)
-             "other": rs.choice([None, None, "good", "good", "no_data", "no_control"])}
+             "other": rs.choice([None, None, "good", "good", "no_data", "no_control"]),
+             # an earlier package lived at the same path, its reader is still alive, then
+             # the file was replaced (only meaningful when opened by file name)
+             "prior_at_path": rs.random() < 0.5,
+             # clients edit the objects that queries handed to them
+             "edit_results": rs.random() < 0.5}
     steps = []
     nfiles = max(len(files), 1)
     w = {"debcontrol": 2, "scripts": 1, "md5sums": 2, "has": 3, "content": 4, "names": 1,
@@ -305,11 +311,35 @@ def execute(case):
     world = case["world"]
     blob, model = build(world)
     shared = SimFile(blob)
+    stale = []
     if world.get("open") == "filename":
         path = os.path.join(_scratch(), "p.deb")
-        fd = os.open(path, os.O_WRONLY | os.O_CREAT | os.O_TRUNC, 0o644)
-        os.write(fd, blob)
-        os.close(fd)
+        if world.get("prior_at_path"):
+            pw = {"fields": [["Package", "prior-pkg"], ["Version", "0.1"], ["Architecture", "all"]],
+                  "scripts": {"prerm": enc_bytes(b"#!/bin/sh\n# prior\n")},
+                  "files": [{"name": "usr/share/prior/file", "data": enc_bytes(b"prior data\n" * 40)}],
+                  "tarfmt": "gnu", "ccomp": "", "dcomp": "gz", "order": [0, 1, 2],
+                  "extra": None, "md5": True, "defect": None}
+            pblob, pmodel = build(pw)
+            fd = os.open(path, os.O_WRONLY | os.O_CREAT | os.O_TRUNC, 0o644)
+            os.write(fd, pblob)
+            os.close(fd)
+            old = debfile.DebFile(filename=path)
+            if [[k_, v_] for k_, v_ in old.debcontrol().items()] != pmodel["fields"] or \
+                    old.data.get_content("usr/share/prior/file") != b"prior data\n" * 40:
+                raise Violation("query-result-differs-from-what-was-packed", "debcontrol",
+                                {"which": "prior package"})
+            stale.append(old)
+            tmp = path + ".tmp"
+            fd = os.open(tmp, os.O_WRONLY | os.O_CREAT | os.O_TRUNC, 0o644)
+            os.write(fd, blob)
+            os.close(fd)
+            os.replace(tmp, path)
+            out.probe("file_replaced_under_live_reader")
+        else:
+            fd = os.open(path, os.O_WRONLY | os.O_CREAT | os.O_TRUNC, 0o644)
+            os.write(fd, blob)
+            os.close(fd)
         r = _call(debfile.DebFile, filename=path)
         out.probe("opened_by_filename")
     else:
@@ -317,6 +347,8 @@ def execute(case):
     defect = world.get("defect")
     log.add("open", defect, r[0], r[1] if r[0] == "exc" else None)
     if defect:
+        for d_ in stale:
+            d_.close()
         out.probe("defective_package_rejected")
         out.nontrivial = True
         if r[0] != "exc" or r[1] != "DebError":
@@ -375,11 +407,25 @@ def execute(case):
             part = None
             if op == "debcontrol":
                 part = "control"
-                got = _call(lambda: [[k, v] for k, v in deb.debcontrol().items()])
+                holder = {}
+
+                def q():
+                    holder["d"] = deb.debcontrol()
+                    return [[k, v] for k, v in holder["d"].items()]
+                got = _call(q)
                 expect(si, op, got, model["fields"])
+                if world.get("edit_results"):
+                    # what a query returns belongs to the caller
+                    holder["d"]["Package"] = "edited-by-client"
+                    holder["d"]["X-Added"] = "1"
+                    out.probe("client_edits_returned_object")
             elif op == "scripts":
                 part = "control"
-                expect(si, op, _call(deb.scripts), model["scripts"])
+                got = _call(deb.scripts)
+                expect(si, op, got, model["scripts"])
+                if world.get("edit_results"):
+                    got[1]["postinst"] = b"edited"
+                    got[1].pop("prerm", None)
             elif op == "md5sums":
                 part = "control"
                 enc = st.get("enc")
@@ -391,6 +437,8 @@ def execute(case):
                 else:
                     want = {(n if enc else n.encode("utf-8")): h for n, h in model["md5"].items()}
                     expect(si, op, got, want, encoding=enc)
+                    if world.get("edit_results"):
+                        got[1]["edited" if enc else b"edited"] = "0" * 32
             elif op == "cget":
                 part = "control"
                 name = st["name"]
@@ -538,7 +586,7 @@ def execute(case):
                 s["f"].close()
             except Exception:   # pylint: disable=broad-except
                 pass
-        for d_ in [deb] + others:
+        for d_ in [deb] + others + stale:
             try:
                 d_.close()
             except Exception:   # pylint: disable=broad-except
